@@ -131,7 +131,10 @@ func (e *cLogEntry) serialize() []byte {
 }
 
 func (e *cLogEntry) isValid() bool {
-	return e.initialNLogSize <= e.finalNLogSize &&
+	// sizes come from disk as unsigned 64-bit integers: a negative value is a corrupted entry
+	return e.initialNLogSize >= 0 &&
+		e.initialHLogSize >= 0 &&
+		e.initialNLogSize <= e.finalNLogSize &&
 		e.rootNodeSize > 0 &&
 		int64(e.rootNodeSize) <= e.finalNLogSize &&
 		e.initialHLogSize <= e.finalHLogSize
@@ -563,6 +566,14 @@ func OpenWith(path, tsFile string, nLog, hLog, cLog appendable.Appendable, opts 
 		maxValueSize = opts.maxValueSize
 	}
 
+	// the persisted parameters must satisfy the constraints options are validated against, and the node
+	// size (which sizes read buffers) is bounded
+	if maxKeySize <= 0 || maxKeySize > math.MaxUint16 ||
+		maxValueSize <= 0 || maxValueSize > math.MaxUint16 ||
+		maxNodeSize > MaxNodeSize {
+		return nil, ErrCorruptedCLog
+	}
+
 	if maxNodeSize < requiredNodeSize(maxKeySize, maxValueSize) {
 		return nil, fmt.Errorf("%w: max node size is too small for specified max key and max value sizes", ErrIllegalArguments)
 	}
@@ -902,6 +913,10 @@ func (t *TBtree) readInnerNodeFrom(r *appendable.Reader) (*innerNode, error) {
 	childCount, err := r.ReadUint16()
 	if err != nil {
 		return nil, err
+	}
+	if childCount == 0 {
+		// an inner node always has children: look-ups index nodes[0]
+		return nil, ErrCorruptedFile
 	}
 
 	n := &innerNode{
@@ -1381,7 +1396,7 @@ func (t *TBtree) readTsFile() uint64 {
 	path := filepath.Join(t.path, t.tsFile)
 
 	bs, err := os.ReadFile(path)
-	if err != nil {
+	if err != nil || len(bs) < 8 {
 		return 0
 	}
 	return binary.BigEndian.Uint64(bs)
